@@ -20,6 +20,46 @@ use verif_harness::egg::*;
 use verif_harness::egg_gen::*;
 use verif_harness::util::*;
 
+// ---- watchdog: an encoded engine that does not come back (e.g. a maintenance rule that keeps
+// firing) is a property violation ("same success or failure of every command"), reported instead
+// of hanging the check
+static PROGRESS_MS: std::sync::atomic::AtomicU64 = std::sync::atomic::AtomicU64::new(0);
+static CURRENT: std::sync::Mutex<String> = std::sync::Mutex::new(String::new());
+static START: std::sync::OnceLock<Instant> = std::sync::OnceLock::new();
+/// violations found so far (so that a watchdog exit does not lose them)
+static FOUND: std::sync::Mutex<Vec<serde_json::Value>> = std::sync::Mutex::new(Vec::new());
+
+fn progress(what: &str, input: &serde_json::Value) {
+    let ms = START.get_or_init(Instant::now).elapsed().as_millis() as u64;
+    PROGRESS_MS.store(ms, std::sync::atomic::Ordering::SeqCst);
+    if let Ok(mut c) = CURRENT.lock() {
+        *c = serde_json::json!({"what": what, "input": input}).to_string();
+    }
+}
+
+fn start_watchdog(out: std::path::PathBuf, limit_s: u64) {
+    START.get_or_init(Instant::now);
+    std::thread::spawn(move || loop {
+        std::thread::sleep(std::time::Duration::from_millis(500));
+        let now = START.get().unwrap().elapsed().as_millis() as u64;
+        let last = PROGRESS_MS.load(std::sync::atomic::Ordering::SeqCst);
+        if now > last + limit_s * 1000 {
+            let cur: serde_json::Value = CURRENT.lock().ok().and_then(|c| serde_json::from_str(&c).ok()).unwrap_or(serde_json::json!({}));
+            let mut vs: Vec<serde_json::Value> = FOUND.lock().map(|f| f.clone()).unwrap_or_default();
+            vs.push(serde_json::json!({"what": format!("no answer within {limit_s}s while running {} (the plain engine answers immediately)", cur["what"]),
+                                "key": "C11-engine-does-not-return", "input": cur["input"]}));
+            let rep = serde_json::json!({
+                "sub": "modes", "cases": vs.len(), "shards": 0, "distinct_nontrivial": 0,
+                "rule": "watchdog: a step did not return within the limit; violations found before that are listed first",
+                "samples": [],
+                "violations": vs
+            });
+            let _ = std::fs::write(out.join("impl_report.json"), serde_json::to_string(&rep).unwrap());
+            std::process::exit(0);
+        }
+    });
+}
+
 #[derive(Clone, Copy, PartialEq, Eq, Debug)]
 enum Mode {
     Plain,
@@ -442,6 +482,7 @@ fn run_session(s: &Session, facts: &[String], do_reprint: bool, err_hist: &mut B
         let mut obs: Vec<StepObs> = Vec::new();
         for (mi, eg) in engines.iter_mut().enumerate() {
             let t0 = Instant::now();
+            progress(&format!("command {k} `{}` on the {} engine", short(text), mode_name(MODES[mi])), &input);
             obs.push(run_step(eg, text));
             times[mi] += t0.elapsed().as_secs_f64();
         }
@@ -513,6 +554,7 @@ fn run_session(s: &Session, facts: &[String], do_reprint: bool, err_hist: &mut B
         for f in facts {
             for (mi, eg) in engines.iter_mut().enumerate() {
                 let t0 = Instant::now();
+                progress(&format!("`{f}` on the {} engine", mode_name(MODES[mi])), &input);
                 let o = run_step(eg, f);
                 times[mi] += t0.elapsed().as_secs_f64();
                 fact_res[mi].push(o.ok);
@@ -559,6 +601,7 @@ fn run_session(s: &Session, facts: &[String], do_reprint: bool, err_hist: &mut B
         }
         for m in [Mode::Term, Mode::Proofs] {
             let t0 = Instant::now();
+            progress(&format!("the reprint variant ({})", mode_name(m)), &input);
             let mut enc = mk(m);
             let res = std::panic::catch_unwind(std::panic::AssertUnwindSafe(|| enc.resolve_program(None, &prog)));
             let text = match res {
@@ -661,6 +704,7 @@ fn run_file(path: &std::path::Path, budget_s: f64) -> (Option<Viol>, bool, f64) 
     let t0 = Instant::now();
     let mut snaps: Vec<Result<String, String>> = Vec::new();
     for m in MODES {
+        progress(&format!("tests/{name} on the {} engine", mode_name(m)), &serde_json::json!({"file": name}));
         let mut eg = mk(m);
         eg.ensure_no_reserved_symbols(false);
         let fname = fname.clone();
@@ -701,6 +745,13 @@ fn run_file(path: &std::path::Path, budget_s: f64) -> (Option<Viol>, bool, f64) 
 }
 
 // ------------------------------------------------------------------------------------------------
+
+fn record(viols: &mut Vec<Viol>, v: Viol) {
+    if let Ok(mut f) = FOUND.lock() {
+        f.push(serde_json::json!({"what": v.what, "key": v.key, "input": v.input}));
+    }
+    viols.push(v);
+}
 
 fn class_vector(probes: &[Pat], nfacts_membership: usize, facts: &[bool]) -> Vec<i64> {
     // facts layout (see probe_facts): membership of every probe, then pairwise equalities i<j
@@ -769,6 +820,7 @@ fn main() {
     let ncases = ncases.unwrap_or(if o.thorough { 2500 } else { 110 });
     let ncons = ncons.unwrap_or(if o.thorough { 3000 } else { 160 });
     std::panic::set_hook(Box::new(|_| {}));
+    start_watchdog(o.out.clone(), if o.thorough { 600 } else { 180 });
     let repo = std::env::var("VERIF_REPO").unwrap_or_else(|_| "/repo".to_string());
 
     let header = "From Coq Require Import List ZArith NArith.\nImport ListNotations.\nRequire Import Verif.Base.Cases Verif.Egg.Model Verif.Encoding.Datalog Verif.Encoding.Templates.\n";
@@ -831,7 +883,7 @@ fn main() {
             }
         }
         if let Some(v) = r.viol {
-            viols.push(v);
+            record(viols, v);
         }
     };
 
@@ -843,7 +895,7 @@ fn main() {
         if let Some(f) = inp.get("file").and_then(|f| f.as_str()) {
             let (vv, _, _) = run_file(&std::path::Path::new(&repo).join("tests").join(f), 1e9);
             if let Some(v) = vv {
-                viols.push(v);
+                record(&mut viols, v);
             }
         } else {
             let strs = |k: &str| -> Vec<String> { inp[k].as_array().map(|a| a.iter().map(|s| s.as_str().unwrap_or("").to_string()).collect()).unwrap_or_default() };
@@ -851,7 +903,7 @@ fn main() {
             let facts: Vec<String> = strs("facts");
             let r = run_session(&s, &facts, true, &mut BTreeMap::new());
             if let Some(v) = r.viol {
-                viols.push(v);
+                record(&mut viols, v);
             }
         }
     } else {
@@ -871,7 +923,7 @@ fn main() {
                     if let Some(k) = v.get("key").and_then(|k| k.as_str()) {
                         vv.key = k.to_string();
                     }
-                    viols.push(vv);
+                    record(&mut viols, vv);
                 }
             }
         }
@@ -929,7 +981,7 @@ fn main() {
                 files_skipped_slow.push(n.clone());
             }
             if let Some(v) = v {
-                viols.push(v);
+                record(&mut viols, v);
             }
         }
     }
